@@ -38,7 +38,7 @@ def _round(v, nd=3):
 # ----------------------------------------------------------------------------------------------- generation
 
 
-def gen_new(rng, ftype, cost=None, nmax=8, minimizer=None, numerical_ok=False):
+def gen_new(rng, ftype, cost=None, nmax=8, minimizer=None, numerical_ok=False, models=None):
     """Draw a construction spec (data + model + cost) for a fit of type ftype."""
     cost = cost or rng.choice(COSTS[ftype])
     spec = {"type": ftype, "cost": cost, "minimizer": minimizer or rng.choice(["iminuit", "iminuit", "scipy"]), "dea": rng.choice(["nonlinear", "nonlinear", "iterative"])}
@@ -47,12 +47,12 @@ def gen_new(rng, ftype, cost=None, nmax=8, minimizer=None, numerical_ok=False):
     crossing = (not poisson) and rng.random() < 0.3  # data / model values of both signs
     if ftype == "xy":
         n = rng.randint(2, min(nmax, 9) if poisson else min(nmax, 13))
-        mk = rng.choice(["linear", "quadratic", "expo", "quadratic", "linear"] if poisson else ["linear", "quadratic", "expo", "sine", "recip"])
+        mk = rng.choice(models or (["linear", "quadratic", "expo", "quadratic", "linear"] if poisson else ["linear", "quadratic", "expo", "sine", "recip"]))
         f, df, d3, names, dflt = userlib.XY_MODELS[mk]
         # kafe2 applies the Poisson data check to the whole (x, y) array of an xy fit: x must be a non-negative integer too
         xs = sorted(rng.sample([float(i) for i in range(0, 9)], n)) if poisson else sorted(rng.sample([0.5 * i for i in range(1, 14)], n))
         ptrue = [_round(v * rng.choice([0.8, 1.0, 1.2])) for v in dflt]
-        if crossing and mk in ("linear", "quadratic", "sine", "recip"):
+        if crossing and mk in ("linear", "quadratic", "sine", "recip", "linear_ac"):
             ym0 = f(np.array(xs), *ptrue)
             ptrue[-1] = _round(ptrue[-1] - float(np.median(ym0)) - 0.37)  # offset parameter: values cross zero, none is exactly zero
         ym = f(np.array(xs), *ptrue)
@@ -64,7 +64,7 @@ def gen_new(rng, ftype, cost=None, nmax=8, minimizer=None, numerical_ok=False):
         spec.update({"model": mk, "x": xs, "y": ys, "ptrue": ptrue})
     elif ftype == "indexed":
         n = rng.randint(2, nmax)
-        mk = rng.choice(["affine", "power", "three"])
+        mk = rng.choice(models or ["affine", "power", "three"])
         f, names, dflt, pure = userlib.make_indexed(n, mk)
         ptrue = [_round(v * rng.choice([0.8, 1.0, 1.2])) for v in dflt]
         if crossing and mk in ("affine", "three"):
@@ -172,6 +172,42 @@ def gen_source(rng, spec, idx, allow_model=True, force=None):
     if not isinstance(ev, list):
         ev = [ev] * n
     return ["add_matrix_error", {"axis": axis, "mtype": "cor", "mat": M.tolist(), "err": ev, "rel": rel, "ref": ref, "name": name, "via": via}]
+
+
+def gen_new_data(rng, spec):
+    t = spec["type"]
+    if t == "xy":
+        poisson = spec["cost"] in POISSON_LIKE
+        xs = list(spec["x"])
+        if rng.random() < 0.7:  # different support points (x-dependent nodes must follow)
+            xs = sorted(set([float(v + rng.choice([0.0, 1.0, 2.0])) if poisson else round(v + rng.choice([0.0, 0.25, -0.25, 0.4]), 3) for v in xs]))
+            while len(xs) < len(spec["x"]):
+                xs.append(xs[-1] + 1.0)
+        out = {"x": xs, "y": [round(v + rng.choice([-0.2, 0.1, 0.3]) if not spec["cost"] in POISSON_LIKE else v + rng.choice([0, 1, 2]), 3) for v in spec["y"]]}
+        return _with_sources(rng, spec, out)
+    if t == "indexed":
+        out = {"d": [round(v + rng.choice([-0.2, 0.1, 0.3]) if not spec["cost"] in POISSON_LIKE else v + rng.choice([0, 1, 2]), 3) for v in spec["d"]]}
+        return _with_sources(rng, spec, out)
+    if t == "hist":
+        return {"entries": [round(v + rng.choice([-0.1, 0.0, 0.1]), 4) for v in spec["entries"]][: max(5, len(spec["entries"]) - 3)]}
+    return {"d": [round(v + rng.choice([-0.1, 0.0, 0.1]), 4) for v in spec["d"]]}
+
+def _with_sources(rng, spec, out):
+    """The replacement may be a container that brings its own (possibly correlated) uncertainty sources."""
+    if spec["cost"] in POISSON_LIKE or spec["cost"] == "chi2_no_errors" or rng.random() < 0.5:
+        return out
+    srcs = []
+    base = gen_source(rng, spec, 0, allow_model=False, force={"kind": "simple", "axis": "y" if spec["type"] == "xy" else None, "ref": "data", "rel": False})
+    base[1]["corr"] = rng.choice([0.0, 0.3, 0.6])
+    base[1]["name"] = "n0"
+    srcs.append(base)
+    if rng.random() < 0.4:
+        op = gen_source(rng, spec, 1, allow_model=False, force={"ref": "data"})
+        op[1]["name"] = "n1"
+        srcs.append(op)
+    out["sources"] = srcs
+    return out
+
 
 
 def gen_constraint(rng, spec):
@@ -433,6 +469,50 @@ class FitSim(object):
             fit.unlimit_parameter(a)
             self.limited.discard(a)
             return None
+        if k == "set_data":
+            t = self.spec["type"]
+            if any(w == "model" for w in self.src_where):
+                raise NotApplicable("model sources present")
+            if t == "xy":
+                if len(a["x"]) != len(a["y"]) or len(a["x"]) != len(self.ref.d):
+                    raise NotApplicable("size")
+                newdata = [list(a["x"]), list(a["y"])]
+                self.ref.d = np.array(a["y"], dtype=float)
+                xs = np.array(a["x"], dtype=float)
+                self.ref.x = xs
+                mk = self.spec["model"]
+                self.ref.model = lambda p, xs=xs, mk=mk: np.asarray(_pure_xy(mk)(xs, *p), dtype=float)
+            elif t == "indexed":
+                newdata = list(a["d"])
+                self.ref.d = np.array(a["d"], dtype=float)
+            elif t == "hist":
+                K = kf()
+                e = self.ref.edges
+                fit.data = K.HistContainer(bin_edges=list(e), fill_data=list(a["entries"]))
+                cnt = np.zeros(len(e) - 1)
+                for v in a["entries"]:
+                    if e[0] <= v < e[-1]:
+                        cnt[int(np.searchsorted(e, v, side="right")) - 1] += 1
+                self.ref.d = cnt
+                self.ref.n_entries = float(len(a["entries"]))
+            else:
+                fit.data = list(a["d"])
+                s = np.array(a["d"], dtype=float)
+                self.ref.d = s
+                mk = self.spec["model"]
+                self.ref.model = lambda p, s=s, mk=mk: np.asarray(_pure_pdf(mk)(s, *p), dtype=float)
+            # the new container carries only its own sources; kafe2 builds a new parametric model as well
+            self.ref.sources = []
+            self.names = []
+            self.src_where = []
+            if t in ("xy", "indexed"):
+                if a.get("sources"):
+                    K = kf()
+                    cont = K.XYContainer(newdata[0], newdata[1]) if t == "xy" else K.IndexedContainer(newdata)
+                    self._pre(cont, a["sources"])
+                    newdata = cont
+                fit.data = newdata
+            return
         raise NotApplicable("unknown op %s" % k)
 
     # -- domain checks (exclusions the properties themselves make)
@@ -476,6 +556,8 @@ class FitSim(object):
 def _pure_xy(mk):
     return {
         "linear": lambda x, a, b: a * x + b,
+        "linear_ac": lambda x, a, c: a * x + c,
+        "linear_cb": lambda x, c, b: b * x + c,
         "quadratic": lambda x, a, b, c: a * x * x + b * x + c,
         "expo": lambda x, A, k: A * np.exp(k * x),
         "sine": lambda x, A, w, c: A * np.sin(w * x) + c,
